@@ -318,12 +318,25 @@ class Renderer:
             L.append(Line(self.kw(default)))
         return L
 
+    def gspec(self, name):
+        """Generic spec: identifier, or operator(...)/assignment(=) whose blanks are insignificant."""
+        if "(" not in name:
+            return self.idn(name)
+        word, rest = name.split("(", 1)
+        inner = rest.rsplit(")", 1)[0]
+        sty = self.pick("gspec-blanks", ["tight", "kw-blank", "inner-blanks"], [3, 1, 1])
+        if sty == "tight":
+            return f"{self.kw(word)}({inner})"
+        if sty == "kw-blank":
+            return f"{self.kw(word)} ({inner})"
+        return f"{self.kw(word)}( {inner} )"
+
     def _access_of(self, node, name, early, late):
         acc = node.get("access")
         if not acc or node.get("access_how", "stmt_after") == "attr":
             return
         dcs = " :: " if self.flag("attrstmt-dcolon") else " "
-        ln = Line(self.kw(acc) + dcs + self.idn(name))
+        ln = Line(self.kw(acc) + dcs + self.gspec(name))
         (early if node.get("access_how") == "stmt_before" else late).append(ln)
 
     def type_def(self, t, early, late):
@@ -357,20 +370,36 @@ class Renderer:
             L.append(Line(self.kw("contains")))
             if t.get("private_binds"):
                 L.append(Line(self.kw("private")))
-            for b in t.get("binds", []):
-                L.append(self.binding(b))
+            binds = list(t.get("binds", []))
+            i = 0
+            while i < len(binds):
+                b = binds[i]
+                group = [b]
+                # several specific bindings with the same attributes may share one statement
+                while (i + len(group) < len(binds) and not b.get("generic") and not b.get("doc")
+                       and self._mergeable(b, binds[i + len(group)])
+                       and (t.get("force_merge") or self.flag("bind-merge", 1, 2))):
+                    group.append(binds[i + len(group)])
+                L.append(self.binding(b, group[1:]))
+                i += len(group)
             if t.get("finals"):
                 L.append(Line(f"{self.kw('final')} :: " + ", ".join(self.idn(f) for f in t["finals"]),
                               t.get("final_doc"), "post"))
         L.append(Line(self.end("type", t["name"]) if True else ""))
         return L
 
-    def binding(self, b):
+    @staticmethod
+    def _mergeable(a, b):
+        keys = ("iface", "deferred", "attrs", "access")
+        return (not b.get("generic") and not b.get("doc")
+                and all((a.get(k) or None) == (b.get(k) or None) for k in keys))
+
+    def binding(self, b, more=()):
         if b.get("generic"):
             txt = self.kw("generic")
             if b.get("access"):
                 txt += ", " + self.kw(b["access"])
-            txt += f" :: {b['name']} => " + ", ".join(self.idn(x) for x in b["targets"])
+            txt += f" :: {self.gspec(b['name'])} => " + ", ".join(self.idn(x) for x in b["targets"])
             return Line(txt, b.get("doc"), self.docsty(b.get("doc")))
         txt = self.kw("procedure")
         if b.get("iface"):
@@ -385,17 +414,19 @@ class Renderer:
         if attrs:
             txt += ", " + ", ".join(attrs) + " :: "
         else:
-            txt += " :: " if b.get("target") or self.flag("dcolon", 3, 4) else " "
+            txt += " :: " if b.get("target") or more or self.flag("dcolon", 3, 4) else " "
         txt += self.idn(b["name"])
         if b.get("target"):
             txt += " => " + self.idn(b["target"])
+        for o in more:
+            txt += ", " + self.idn(o["name"]) + (" => " + self.idn(o["target"]) if o.get("target") else "")
         return Line(txt, b.get("doc"), self.docsty(b.get("doc")))
 
     def interface(self, i, early, late):
         L = []
         form = i["form"]
         if form == "generic":
-            head = f"{self.kw('interface')} {i['name'] if '(' in i['name'] else self.idn(i['name'])}"
+            head = f"{self.kw('interface')} {self.gspec(i['name'])}"
             self._access_of(i, i["name"], early, late)
         elif form == "abstract":
             head = f"{self.kw('abstract')} {self.kw('interface')}"
@@ -416,7 +447,7 @@ class Renderer:
                 L.append(Line(f"{mp}{dcs}" + ", ".join(self.idn(n) for n in i["modprocs"])))
         e = f"{self.kw('end')} {self.kw('interface')}"
         if form == "generic" and self.flag("end-interface-name", 1, 2):
-            e += " " + (i["name"] if "(" in i["name"] else self.idn(i["name"]))
+            e += " " + self.gspec(i["name"])
         L.append(Line(e))
         return L
 
